@@ -144,11 +144,9 @@ def run(chk, repo, tier):
         keyword"""
         out = set()
         for p in pw:
-            for c in p.calls():
-                if is_call(c) and c[1][0] == 'attr' and c[1][2] == 'append' \
-                        and c[2] and c[2][0][0] == 'fmt' \
-                        and c[2][0][1] == ('const', keyword + ': %s'):
-                    arg = c[2][0][2]
+            for k in sym.path_keys(p):
+                if k[0] == 'fmt' and k[1] == ('const', keyword + ': %s'):
+                    arg = k[2]
                     if is_call(arg) and arg[1][0] == 'attr' \
                             and arg[1][2] == 'fmt_in_units':
                         out.add(arg[1][1])
